@@ -51,21 +51,53 @@ def attrs_tok(a: dict) -> str:
     return f"{hx(exe) if exe else '-'},{a.get('nprocs') or '-'},{a.get('memory') or '-'},{e}"
 
 
-def make_driver_class(cls_attrs: dict, decl: dict):
+PROGRAMS = ["c17_a", "c17_b", "c17_c", "c17_def0", "c17_def1"]
+WHICH = {}          # name -> what shutil.which finds (fake programs in ctx.scratch/bin, first on the PATH)
+
+
+def install_programs(ctx):
+    import shutil
+
+    bindir = ctx.scratch / "bin"
+    bindir.mkdir(exist_ok=True)
+    for n in PROGRAMS:
+        f = bindir / n
+        f.write_text("#!/bin/sh\nexit 0\n")
+        f.chmod(0o755)
+    if str(bindir) not in os.environ.get("PATH", "").split(os.pathsep):
+        os.environ["PATH"] = str(bindir) + os.pathsep + os.environ.get("PATH", "")
+    WHICH.clear()
+    WHICH.update({n: shutil.which(n) for n in PROGRAMS})
+
+
+def norm_scen(scen):
+    """one shape for old and new binding scenarios: `classes` = [{attrs, default}], `insts` = [{cls, req, flags}]"""
+    if "classes" not in scen:
+        scen = dict(scen, classes=[{"attrs": scen.get("cls") or {}, "default": None}])
+    scen["insts"] = [a if isinstance(a, dict) and "req" in a else {"cls": 0, "req": a, "flags": "FF"} for a in scen["insts"]]
+    return scen
+
+
+def make_driver_classes(classes, decl: dict):
+    """driver classes derived from one base that owns the job object (all of them share it through inheritance);
+    each may declare a `default_executable` and class-level attributes"""
     from molli.pipeline.driver import DriverBase
     from molli.pipeline.job import Job, JobInput
 
-    class TDriver(DriverBase):
+    class TBase(DriverBase):
         @Job(return_files=("r.txt",), **decl).prep
         def task(self, obj, *args, **kwargs):
             settings = {"exe": self.executable, "nprocs": self.nprocs, "memory": self.memory, "args": list(args)}
             return JobInput(str(obj), commands=[(json.dumps(settings), "t")], files={}, return_files=self.return_files,
                             envars=dict(self.envars or {}))
 
-    for k, v in cls_attrs.items():
-        if v is not None:
-            setattr(TDriver, k, v)
-    return TDriver
+    out = []
+    for k, c in enumerate(classes):
+        ns = {key: v for key, v in (c.get("attrs") or {}).items() if v is not None}
+        if c.get("default"):
+            ns["default_executable"] = c["default"]
+        out.append(type(f"TDriver{k}", (TBase,), ns))
+    return out
 
 
 def gen_attrs(rng, idx, level):
@@ -140,37 +172,81 @@ def random_history(rng, quick):
     return insts, hist
 
 
+def gen_init_scenario(rng, n, rot=0):
+    """several driver classes (at least one declaring a default_executable), instances with an explicit executable or relying
+    on the class default, created with the PATH lookup on or off"""
+    classes = [{"attrs": gen_attrs(rng, 0, "cls") if rng.chance(1, 3) else {}, "default": rng.choice([None, "c17_def0", "c17_def0"])},
+               {"attrs": gen_attrs(rng, 1, "cls") if rng.chance(1, 3) else {}, "default": "c17_def1"}]
+    for c in classes:
+        c["attrs"].pop("executable", None)
+    insts = []
+    for i in range(n):
+        k = rng.below(2)
+        req = gen_attrs(rng, i + 1, "inst")
+        req.pop("executable", None)
+        explicit = rng.choice([None, None, "c17_a", "c17_b", "c17_c"])
+        if explicit:
+            req["executable"] = explicit
+        has_exe = explicit or classes[k]["default"]
+        flags = ["TT", "FT", "TT", "FF"][(rot + i) % 4] if has_exe else "FF"      # (check_exe, find)
+        insts.append({"cls": k, "req": req, "flags": flags})
+    if all(x["req"].get("executable") for x in insts):        # at least one explicit and one default instance
+        insts[-1]["req"].pop("executable")
+        insts[-1]["cls"], insts[-1]["flags"] = 1, "TT"
+    if not any(x["req"].get("executable") for x in insts):
+        insts[0]["req"]["executable"], insts[0]["flags"] = "c17_a", "TT"
+    return classes, insts
+
+
 def check_binding(ctx):
+    install_programs(ctx)
     reqs = []
+
+    def one(scen, counts):
+        observed, evtoks = run_bind_scenario(scen)
+        ctx.case(json.dumps(scen, sort_keys=True), nontrivial=True)
+        for c in counts:
+            ctx.count(c)
+        oracle_bind(ctx, scen, observed)
+        if not any("raised" in o for o in observed):
+            reqs.append((bind_line(scen, evtoks), observed, scen))
+
     n_settings = 2 if ctx.quick() else 8
     for n in (2, 3):
         for rep in range(n_settings):
             cls_attrs = gen_attrs(ctx.rng, 0, "cls")
             decl = gen_attrs(ctx.rng, 0, "decl") if ctx.rng.chance(1, 3) else {}
             insts = [gen_attrs(ctx.rng, i + 1, "inst") for i in range(n)]
-            for h in histories(n, ctx.rng, ctx.quick()):
+            hs = histories(n, ctx.rng, ctx.quick())
+            for h in hs:
                 ctx.check_deadline()
-                scen = {"section": "bind", "cls": cls_attrs, "decl": decl, "insts": insts, "history": [list(e) for e in h]}
-                observed, evtoks = run_bind_scenario(scen)
-                ctx.case(json.dumps(scen, sort_keys=True), nontrivial=len({json.dumps(a, sort_keys=True) for a in insts}) > 1)
-                ctx.count(f"bind-instances={n}")
-                ctx.count(f"bind-history-length={len(h)}")
-                oracle_bind(ctx, scen, observed)
-                line = f"bind r {attrs_tok(decl)} {attrs_tok(cls_attrs)} " + " ".join(evtoks)
-                reqs.append((line, observed, scen))
+                one({"section": "bind", "cls": cls_attrs, "decl": decl, "insts": insts, "history": [list(e) for e in h]},
+                    [f"bind-instances={n}", f"bind-history-length={len(h)}"])
+            # explicit / default executables, several classes sharing the job, PATH lookup: all creation / use orders
+            classes, specs = gen_init_scenario(ctx.rng, n, rep)
+            for h in hs:
+                one({"section": "bind", "classes": classes, "decl": {}, "insts": specs, "history": [list(e) for e in h]},
+                    [f"bind-init-instances={n}"] + [f"bind-init:{'explicit' if x['req'].get('executable') else 'class-default'}/{x['flags']}" for x in specs])
     # histories with attribute changes and disposals
     for rep in range(60 if ctx.quick() else 600):
-        cls_attrs = gen_attrs(ctx.rng, 0, "cls") if ctx.rng.chance(1, 2) else {}
         decl = gen_attrs(ctx.rng, 0, "decl") if ctx.rng.chance(1, 4) else {}
         insts, h = random_history(ctx.rng, ctx.quick())
-        scen = {"section": "bind", "cls": cls_attrs, "decl": decl, "insts": insts, "history": h}
-        observed, evtoks = run_bind_scenario(scen)
-        ctx.case(json.dumps(scen, sort_keys=True), nontrivial=any(e[0] in ("m", "d") for e in h))
-        ctx.count("bind-random-history")
-        for e in h:
-            ctx.count({"c": "bind-event:create", "u": "bind-event:use", "m": "bind-event:attributes-changed", "d": "bind-event:driver-discarded"}[e[0]])
-        oracle_bind(ctx, scen, observed)
-        reqs.append((f"bind r {attrs_tok(decl)} {attrs_tok(cls_attrs)} " + " ".join(evtoks), observed, scen))
+        if ctx.rng.chance(1, 2):
+            classes, _ = gen_init_scenario(ctx.rng, 2)
+            specs = []
+            for a in insts:
+                k = ctx.rng.below(2)
+                if ctx.rng.chance(1, 2):
+                    a = {x: v for x, v in a.items() if x != "executable"}
+                    if ctx.rng.chance(1, 2):
+                        a["executable"] = ctx.rng.choice(PROGRAMS[:3])
+                named = a.get("executable") in PROGRAMS or (not a.get("executable") and classes[k]["default"])
+                specs.append({"cls": k, "req": a, "flags": ctx.rng.choice(["TT", "TT", "FF"]) if named else "FF"})
+            scen = {"section": "bind", "classes": classes, "decl": decl, "insts": specs, "history": h}
+        else:
+            scen = {"section": "bind", "cls": gen_attrs(ctx.rng, 0, "cls") if ctx.rng.chance(1, 2) else {}, "decl": decl, "insts": insts, "history": h}
+        one(scen, ["bind-random-history"] + [{"c": "bind-event:create", "u": "bind-event:use", "m": "bind-event:attributes-changed",
+                                              "d": "bind-event:driver-discarded"}[e[0]] for e in h])
     # the real XTB driver: two instances, used in the order second, first, second
     xs = xtb_scenario(ctx)
     outs = ctx.driver([r[0] for r in reqs])
@@ -196,7 +272,8 @@ def run_bind_scenario(scen):
     """replay a history on the real descriptor; returns the settings seen in each prepared JobInput"""
     import gc
 
-    T = make_driver_class(scen["cls"], scen["decl"])
+    scen = norm_scen(scen)
+    T = make_driver_classes(scen["classes"], scen["decl"])
     drivers = {}
     current = {}
     observed, evtoks = [], []
@@ -207,11 +284,19 @@ def run_bind_scenario(scen):
     for ev in scen["history"]:
         kind, i = ev[0], ev[1]
         if kind == "c":
-            a = scen["insts"][i]
-            drivers[i] = T(executable=a.get("executable"), nprocs=a.get("nprocs"), memory=a.get("memory"),
-                           envars=a.get("envars"), check_exe=False, find=False)
-            current[i] = a
-            evtoks.append(f"c{i}:{seen_tok(drivers[i])}")
+            spec = scen["insts"][i]
+            a, k, flags = spec["req"], spec["cls"], spec.get("flags", "FF")
+            try:
+                drivers[i] = T[k](executable=a.get("executable"), nprocs=a.get("nprocs"), memory=a.get("memory"),
+                                  envars=a.get("envars"), check_exe=flags[0] == "T", find=flags[1] == "T")
+            except Exception as e:
+                observed.append({"raised": f"{type(e).__name__}: {e}", "inst": i, "spec": spec})
+                return observed, evtoks
+            asked = a.get("executable") or scen["classes"][k].get("default")
+            if flags[1] == "T":
+                asked = WHICH.get(asked) if asked else None
+            current[i] = dict(a, executable=asked)
+            evtoks.append(f"C{i}:{k}:{attrs_tok(a)}:{1 if flags[1] == 'T' else 0}")
         elif kind == "m":
             a = ev[2]
             d = drivers[i]
@@ -225,18 +310,31 @@ def run_bind_scenario(scen):
             evtoks.append(f"d{i}")
         else:
             inp = drivers[i].task.prepare(f"obj{i}", "arg", i)
-            s = json.loads(inp.commands[0][0])
-            observed.append({"exe": s["exe"], "nprocs": s["nprocs"], "memory": s["memory"], "args": s["args"],
+            st = json.loads(inp.commands[0][0])
+            observed.append({"exe": st["exe"], "nprocs": st["nprocs"], "memory": st["memory"], "args": st["args"],
                              "envars": dict(inp.envars or {}), "jid": inp.jid, "inst": i, "attrs": dict(current[i]),
-                             "return_files": list(inp.return_files or ())})
+                             "cls": scen["insts"][i]["cls"], "return_files": list(inp.return_files or ())})
             evtoks.append(f"u{i}")
     return observed, evtoks
 
 
+def bind_line(scen, evtoks) -> str:
+    scen = norm_scen(scen)
+    classes = "|".join(f"{attrs_tok(c.get('attrs') or {})}~{hx(c['default']) if c.get('default') else '-'}" for c in scen["classes"])
+    which = "&".join(f"{hx(k)}={hx(v)}" for k, v in WHICH.items() if v) or "-"
+    return f"bind2 r {attrs_tok(scen['decl'])} {classes} {which} " + " ".join(evtoks)
+
+
 def oracle_bind(ctx, scen, observed):
-    decl, cls = scen["decl"], scen["cls"]
+    scen = norm_scen(scen)
+    decl = scen["decl"]
     for o in observed:
-        a = o.get("attrs", scen["insts"][o["inst"]])     # the attributes the driver has when it is used
+        if "raised" in o:
+            ctx.violation("C17:driver-construction-raised",
+                          f"creating driver {o['inst']} ({o['spec']}) raised {o['raised']}", scen)
+            return
+        cls = scen["classes"][o["cls"]].get("attrs") or {}
+        a = o["attrs"]     # what this driver was asked to run with when it is used: its own arguments (or class default), or what was assigned since
         what = None
         if not decl.get("executable") and a.get("executable") and o["exe"] != a["executable"]:
             what = f"executable {o['exe']!r}, the driver used has {a['executable']!r}"
@@ -680,7 +778,9 @@ def run(ctx):
     ctx.rule = ("Part 1: for 2 and 3 driver instances with distinct settings (class / declaration / instance levels randomly "
                 "present) EVERY order of creations and uses (6 + 90 orders, creation before use), histories with repeated uses, and random "
                 "histories of 6..18 events in which drivers are also re-configured (attributes assigned) and discarded (del + gc) and "
-                "followed by new drivers with other settings; "
+                "followed by new drivers with other settings; sequences of instances of two driver classes that share the job object "
+                "(one or both declaring a default_executable), created with an explicit executable or relying on the class default, with "
+                "the PATH lookup on (fake programs first on the PATH) or off, in every creation / use order; "
                 "non-trivial = the instances differ. Part 2: command lists of length 1..4, first failure at every position or none, "
                 "failures by exit status {1,2,3,127,255} or by signal {KILL,TERM,SEGV,INT}, named/unnamed commands, 0..3 text/binary input files (empty, NUL, 0xFF, CRLF, UTF-8), "
                 "scripted writes/copies/removals/environment dumps, return_files = subset of created, input, capture and missing "
@@ -696,6 +796,7 @@ def run(ctx):
     ctx.proof(props=["Molli.Props.C17"], gen=[])
     corpus = load_corpus()
     for s in [c for c in corpus if c.get("section") == "bind"]:
+        install_programs(ctx)
         observed, evtoks = run_bind_scenario(s)
         ctx.case("corpus:" + json.dumps(s, sort_keys=True), nontrivial=True)
         oracle_bind(ctx, s, observed)
